@@ -40,6 +40,15 @@ def run(ctx):
     ctx.alias = {}
     shared.effect_free(ctx, 'R6', [f'{N.MAPPER}.valid', f'{N.GENERIC}.Generic.parse_options_to_ExportOptions'],
                        'the selection must not depend on earlier calls nor alter the caller\'s include / exclude sets')
+    # "selected material is never altered or reordered": the order of what is left after the filter is the canonical order of the
+    # unfiltered export (the sort is applied on every path, whatever the filter leaves) ...
+    from . import c01, c06
+    ctx.alias = {'R1': 'R7'}
+    c01.r1_order_taint(ctx)
+    # ... and every cell of every line goes through the gate (no record is skipped as a whole on the category of one of its cells)
+    ctx.alias = {'R1': 'R8'}
+    c06.r1b_body_loop(ctx)
+    ctx.alias = {}
 
 
 def _kwargs_get(node, kw, key):
